@@ -445,8 +445,8 @@ def run_property(prop, tier, obligations, meta, seed=0, only=None, jobs=None, ke
                         r['reason'] = 'vacuity witness not satisfied in any member of family %s: %s' % (fam, desc)
 
         # failures -> known finding or replay
-        violations, known_lines, inconclusive = [], [], []
-        for oid, r in sorted(results.items()):
+        violations, known_lines, inconclusive, also_failing = [], [], [], []
+        for oid, r in sorted(results.items(), key=lambda kv: (kv[1].get('wall_s') or 0)):
             ob = obmap[oid]
             if r['status'] == 'inconclusive':
                 inconclusive.append((oid, r.get('reason', '')))
@@ -464,7 +464,12 @@ def run_property(prop, tier, obligations, meta, seed=0, only=None, jobs=None, ke
             if not unknown:
                 r['status'] = 'known-finding'
                 continue
-            # replay
+            # replay (once a counterexample of this run has been reproduced natively, further failing obligations
+            # are reported without their own replay: one reproduced violation decides the exit status)
+            if violations:
+                also_failing.append((oid, unknown))
+                r['status'] = 'fail (not replayed: another counterexample of this run already reproduced)'
+                continue
             item = [p for p in pending if p[0]['id'] == oid][0]
             rep = replay_failure(slot, prop, ob, item[1], item[2], item[3], logdir, unknown)
             r['replay'] = rep
@@ -479,6 +484,8 @@ def run_property(prop, tier, obligations, meta, seed=0, only=None, jobs=None, ke
         for oid, path, unknown in violations:
             log('VIOLATION property=%s replay=%s' % (prop, path))
             log('  obligation %s: %s' % (oid, '; '.join(u['desc'] for u in unknown)))
+        for oid, unknown in also_failing:
+            log('  also failing (not replayed): %s: %s' % (oid, '; '.join(u['desc'] for u in unknown)[:200]))
         for oid, why in inconclusive:
             log('INCONCLUSIVE: %s %s: %s' % (prop, oid, why))
         if violations:
